@@ -20,6 +20,12 @@ structure Input where
   sched : List Nat := []
   obs : List (Nat × Nat × Option Nat × String) := []
   final : List (Option Nat) := []
+  isLsm : Bool := false
+  lcfg : Cfg := {}
+
+/-- the store the case starts from (the LSM tree is built once all its `strat` / `fp` lines are read) -/
+def Input.store0 (inp : Input) : Store :=
+  if inp.isLsm then .lsm inp.lcfg (St.init inp.lcfg) else inp.store
 
 def parseLevel : String → Level
   | "rc" => .rc
@@ -44,6 +50,12 @@ def parseLine (inp : Input) (l : String) : Input :=
   match toks l with
   | ["cfg", n, "bt", o] => { inp with nkeys := natD n, store := .bt { order := natD o }, isBt := true }
   | ["cfg", n, "kv"] => { inp with nkeys := natD n, store := .kv [] }
+  | ["cfg", n, "lsm", m, lv] =>
+    { inp with nkeys := natD n, isLsm := true, lcfg := { inp.lcfg with memSize := natD m, maxLevels := natD lv } }
+  | ["strat", "st", m] => { inp with lcfg := { inp.lcfg with strat := .sizeTiered (natD m) } }
+  | ["strat", "lv", a, b, c] => { inp with lcfg := { inp.lcfg with strat := .leveled (natD a) (natD b) (natD c) } }
+  | ["strat", "fifo", m] => { inp with lcfg := { inp.lcfg with strat := .fifo (natD m) } }
+  | ["fp", m, k] => { inp with lcfg := { inp.lcfg with fp := (natD m, natD k) :: inp.lcfg.fp } }
   | ["init", k, v] => { inp with init := inp.init ++ [(natD k, natD v)] }
   | "op" :: id :: rest =>
     match parseOp rest with
@@ -83,7 +95,8 @@ def storeLines (inp : Input) (s : Store) : List String :=
     s!"size {s.size}",
     match s with
     | .bt t => s!"shape {t.depth} {t.dump}"
-    | .kv d => s!"shape 1 ({showKV d})" ]
+    | .kv d => s!"shape 1 ({showKV d})"
+    | .lsm _ st => "levels " ++ joinSp (st.levels.map fun l => s!"{l.length}:{keyCount l}") ]
 
 def doneResS : SPc → Option SRes
   | .done x => some x
@@ -99,13 +112,13 @@ def runStore (body : List String) : List String :=
     match o.2 with
     | .s op => some { id := o.1, pc := .start op }
     | .t _ => none
-  let r := runFrames stepS SPc.isDone inp.store frames 0 inp.sched
+  let r := runFrames stepS SPc.isDone inp.store0 frames 0 inp.sched
   (sortFrames r.2).filterMap (frameLine doneResS)
     ++ storeLines inp r.1
 
 def runTxn (body : List String) : List String :=
   let inp := parse body
-  let tm : TM := { store := inp.init.foldl (fun s e => s.putSync e.1 e.2) inp.store }
+  let tm : TM := { store := inp.init.foldl (fun s e => s.putSync e.1 e.2) inp.store0 }
   let frames : List (SM.Frame TPc) := inp.ops.filterMap fun o =>
     match o.2 with
     | .t op => some { id := o.1, pc := .start op }
